@@ -506,7 +506,7 @@ def _tok(f):
     return "f%d" % f[1]
 
 
-def _comma_text(bulk, card, rng=None):
+def _comma_text(bulk, card, rng=None, mnemonic=False):
     """the same card in free (comma) format, written by the harness: 8 fields per line, the
     continuation field left empty or '+', trailing blanks of the last line dropped."""
     toks = []
@@ -523,10 +523,17 @@ def _comma_text(bulk, card, rng=None):
                    "wtcard16d": bulk.format_double16}[card["writer"]]
             toks.append(fmt(x).strip())
     lines = []
+    mnem = None
     for i in range(0, max(len(toks), 1), 8):
         chunk = toks[i: i + 8]
-        head = card["name"] if i == 0 else ("+" if (rng is None or rng.random() < 0.5) else "")
-        if i + 8 < len(toks) and (rng is None or rng.random() < 0.6):
+        head = card["name"] if i == 0 else (mnem if mnem else ("+" if (rng is None or rng.random() < 0.5) else ""))
+        mnem = None
+        if i + 8 < len(toks) and (mnemonic or (rng is not None and rng.random() < 0.35)):
+            # Nastran's free-field form: the 10th field of a continued line may hold a continuation mnemonic that the
+            # next line repeats in its first field; it is not data
+            mnem = "+C%d" % (i // 8 + 1)
+            chunk = chunk + [mnem]
+        elif i + 8 < len(toks) and (rng is None or rng.random() < 0.6):
             # a line that is continued may omit its trailing blank fields: the reader pads them
             while len(chunk) > 1 and chunk[-1] == "":
                 chunk = chunk[:-1]
@@ -1423,6 +1430,15 @@ def _card_failures(bulk, card):
             out.append((fam, "fixed-field and comma forms of the same card read differently (keep_name=True)",
                         inp, {"comma_text": ct, "read": repr(gc)[:400]},
                         {"fixed_read": [_canon_val(v) for v in g][:70]}))
+        # the same card with continuation mnemonics in the 10th field of every continued line
+        cm = _comma_text(bulk, card, mnemonic=True)
+        if cm is not None and cm != ct and len(card["name"]) <= 8:
+            gm = rd(cm, True)
+            if not agree(gm, got):
+                out.append(("card-fixed-vs-comma-mnemonic-%s" % card["writer"],
+                            "comma form with continuation mnemonics (+C1 in the 10th field, repeated at the start of "
+                            "the next line) reads differently from the fixed-field form", inp,
+                            {"comma_text": cm, "read": repr(gm)[:400]}, {"fixed_read": [_canon_val(v) for v in g][:70]}))
     return out
 
 
